@@ -349,6 +349,8 @@ class World:
                     oc = "(ODone (mkData %d 0 %d))" % ((iv, got) if got is not None else (iv + 50, 0))
                 self.events += ["EvLoad %d %s false" % (pid, ppath), "EvSeeLoad %d %s" % (pid, oc)]
                 self.log.append("in-process load of %s (#%d in that process) -> %s" % (os.path.basename(paths[i]), i + 1, oc))
+        elif kind == "inproc":
+            self.op_inproc(o[1], refs)
         elif kind == "race":
             ps = [self.start_cli() for _ in range(o[1])]
             res = [(n,) + self.finish_cli(p) for n, p in ps]
@@ -368,10 +370,85 @@ class World:
             raise ValueError(kind)
         self.observe_all(refs)
 
+    def op_inproc(self, subs, refs):
+        """Several analyses / loads / edits inside ONE process.  subs: "analyse" | "load" | "load_arch" | "load_rel" |
+        ["edit", v].  Events are emitted per step; a load names the previous completed load of the same path *string* in
+        this process (the key of MachineModel._runtime_cache) as its `prev`."""
+        iv = refs["iv"]
+        cdir = os.path.join(self.root, "contents")
+        os.makedirs(cdir, exist_ok=True)
+        steps, plan = [], []
+        cur = self.cur
+        for sub in subs:
+            if sub == "analyse":
+                steps.append(["analyse", self.arch, self.kernel])
+            elif sub == "load":
+                steps.append(["load", self.yml])
+            elif sub == "load_arch":
+                steps.append(["load_arch", self.arch])
+            elif sub == "load_rel":
+                steps.append(["chdir", self.data])
+                plan.append(None)
+                steps.append(["load", os.path.basename(self.yml)])
+            else:
+                c = CID_ARCH0 + sub[1]
+                src = os.path.join(cdir, "%d.yml" % c)
+                with open(src, "wb") as f:
+                    f.write(self.contents[c])
+                steps.append(["write", self.yml, src])
+            plan.append(sub)
+        sfile = os.path.join(self.root, "steps-%d.json" % self.nload)
+        json.dump(steps, open(sfile, "w"))
+        rc, out = vlib.sh([vlib.PY, DRIVER, "inproc", sfile] + ([self.noaccess] if self.noaccess else []),
+                          env=self.env(), cwd=self.root, timeout=600)
+        lines = [json.loads(l) for l in out.splitlines() if l.startswith("{")]
+        prev = {}          # runtime-cache key (path string) -> pid of the last completed non-lazy load in this process
+        for i, sub in enumerate(plan):
+            if sub is None:
+                continue
+            r = lines[i] if i < len(lines) else {"error": "no output: " + out[-200:]}
+            if sub == "analyse":
+                n = self.ncli
+                self.ncli += 1
+                if "error" in r:
+                    oc = self.judge_cli(n, 1, "", "Traceback\n" + r["error"], refs)
+                else:
+                    oc = self.judge_cli(n, 0, r["report"], "", refs)
+                if self.bad and self.bad[-1][1].startswith("run %d " % n):
+                    self.bad[-1] = (self.bad[-1][0], "in-process analysis: " + self.bad[-1][1])
+                opt = lambda k: "(Some %d)" % prev[k] if k in prev else "None"
+                self.events += ["EvCliP %d apath ipath %s %s" % (n, opt(self.yml), opt(self.isayml)), "EvSeeCli %d %s" % (n, oc)]
+                if oc.startswith("(ODone"):
+                    prev[self.yml], prev[self.isayml] = 3 * n, 3 * n + 1
+                self.log.append("in-process analysis (run %d, same process) -> %s" % (n, oc))
+            elif sub in ("load", "load_arch", "load_rel"):
+                key = os.path.basename(self.yml) if sub == "load_rel" else self.yml
+                pid = self.nload
+                self.nload += 1
+                if "error" in r:
+                    oc = "ORaised"
+                    self.bad.append(("cache-run-raises", "in-process %s failed with %s" % (sub, r["error"])))
+                else:
+                    cands = refs["cid_of_fp_full"].get(r["fp"], [])
+                    got = self.cur if self.cur in cands else (min(cands) if cands else None)
+                    if got != self.cur:
+                        self.bad.append(("inprocess-stale-model", "a process loaded the model, the model file was edited to content #%d, "
+                                         "and a later %s in the SAME process returned the data of content #%s" % (self.cur, sub, got)))
+                    oc = "(ODone (mkData %d 0 %d))" % ((iv, got) if got is not None else (iv + 50, 0))
+                self.events += [("EvLoadP %d apath %d" % (pid, prev[key])) if key in prev else ("EvLoad %d apath false" % pid),
+                                "EvSeeLoad %d %s" % (pid, oc)]
+                if oc.startswith("(ODone"):
+                    prev[key] = pid
+                self.log.append("in-process %s (same process) -> %s" % (sub, oc))
+            else:
+                self.cur = CID_ARCH0 + sub[1]
+                self.events.append("EvEdit apath %d" % self.cur)
+                self.log.append("edit model file -> content #%d (process keeps running)" % self.cur)
+
     # ------------------------------------------------------------------ Coq rendering
     def coq_setup(self, disc, iv):
-        w = "(mkSetup %d (mkCfg %d 0) %s (mkEnv (fun _ => %s) true) %s)" % (
-            NCH, iv, disc, "false" if self.mode == "home" else "true", "true" if rehash_in_source() else "false")
+        w = "(mkSetup %d (mkCfg %d 0) %s (mkEnv (fun _ => %s) true) %s" % (
+            NCH, iv, disc, "false" if self.mode == "home" else "true", "true" if rehash_in_source() else "false") + " RtIgnored)"
         s0 = ("(empty_state (fun p => if path_eqb p (mkPath 0 0) then %d else if path_eqb p (mkPath 2 0) then %d else %d))"
               % (CID_ARCH0, CID_OTHER, CID_ISA))
         return w, s0
